@@ -1,24 +1,48 @@
 // Kani twin (extracted text): pubsub.rs pattern_matches, the glob matcher PSUBSCRIBE / PUBLISH rest on (C14: "to every client subscribed
-// at that moment and to nobody else"). BOUNDED: pattern <= 3 bytes, channel <= 4 bytes, every byte symbolic over the alphabet
+// at that moment and to nobody else"). BOUNDED: pattern <= 3 bytes, channel <= 3 bytes, every byte symbolic over the alphabet
 // { a, b, *, ?, \ } (two ordinary letters are enough to tell equal from different; the three metacharacters are all there are).
-// The whole function is extracted; nothing is dropped. Reference: the textbook recursive definition of the same glob dialect.
+// The whole function is extracted; nothing is dropped. Reference: the textbook dynamic-programming table for the same glob dialect.
 
 //@@ unit pattern_matches fn src/pubsub.rs pattern_matches
 pub fn pattern_matches(pattern: &[u8], channel: &[u8]) -> bool
 //@@ body
 //@@ end
 
+// reference: the pattern as at most 3 tokens (star / any one byte / this byte; `\x` is the byte x, a lone trailing `\` is itself), then the
+// textbook table m[i][j] = "the first i tokens match the first j channel bytes"
 #[cfg(kani)]
-fn ref_glob(p: &[u8], c: &[u8]) -> bool {
-    if p.is_empty() {
-        return c.is_empty();
+#[derive(Clone, Copy, PartialEq)]
+enum Tok { Star, Any, Lit(u8) }
+#[cfg(kani)]
+fn ref_glob(p: &[u8; 3], pn: usize, c: &[u8; 3], cn: usize) -> bool {
+    let mut toks = [Tok::Star; 3];
+    let mut tn = 0;
+    let mut i = 0;
+    while i < pn {
+        let b = p[i];
+        if b == b'*' { toks[tn] = Tok::Star; i += 1; }
+        else if b == b'?' { toks[tn] = Tok::Any; i += 1; }
+        else if b == b'\\' && i + 1 < pn { toks[tn] = Tok::Lit(p[i + 1]); i += 2; }
+        else { toks[tn] = Tok::Lit(b); i += 1; }
+        tn += 1;
     }
-    match p[0] {
-        b'*' => ref_glob(&p[1..], c) || (!c.is_empty() && ref_glob(p, &c[1..])),
-        b'?' => !c.is_empty() && ref_glob(&p[1..], &c[1..]),
-        b'\\' if p.len() >= 2 => !c.is_empty() && p[1] == c[0] && ref_glob(&p[2..], &c[1..]),
-        x => !c.is_empty() && x == c[0] && ref_glob(&p[1..], &c[1..]),
+    let mut m = [[false; 4]; 4];
+    m[0][0] = true;
+    let mut a = 1;
+    while a <= tn {
+        let t = toks[a - 1];
+        let mut j = 0;
+        while j <= cn {
+            m[a][j] = match t {
+                Tok::Star => m[a - 1][j] || (j > 0 && m[a][j - 1]),
+                Tok::Any => j > 0 && m[a - 1][j - 1],
+                Tok::Lit(x) => j > 0 && c[j - 1] == x && m[a - 1][j - 1],
+            };
+            j += 1;
+        }
+        a += 1;
     }
+    m[tn][cn]
 }
 #[cfg(kani)]
 fn sym_byte() -> u8 {
@@ -29,16 +53,16 @@ fn sym_byte() -> u8 {
 
 #[cfg(kani)]
 #[kani::proof]
-#[kani::unwind(26)]
+#[kani::unwind(18)]
 fn glob_matches_reference_bounded() {
     let p: [u8; 3] = [sym_byte(), sym_byte(), sym_byte()];
-    let c: [u8; 4] = [sym_byte(), sym_byte(), sym_byte(), sym_byte()];
+    let c: [u8; 3] = [sym_byte(), sym_byte(), sym_byte()];
     let pn: usize = kani::any();
     let cn: usize = kani::any();
-    kani::assume(pn <= 3 && cn <= 4);
+    kani::assume(pn <= 3 && cn <= 3);
     let got = pattern_matches(&p[..pn], &c[..cn]);
-    let want = ref_glob(&p[..pn], &c[..cn]);
-    kani::cover!(pn == 3 && cn == 4 && got, "a full-length match is reachable");
+    let want = ref_glob(&p, pn, &c, cn);
+    kani::cover!(pn == 3 && cn == 3 && got, "a full-length match is reachable");
     kani::cover!(pn == 3 && p[0] == b'*' && !got, "a mismatch after a star is reachable");
     assert!(got == want, "pattern_matches agrees with the reference glob");
 }
